@@ -71,6 +71,7 @@ class Ctx:
         self.gnext = {}        # name -> expr
         self.requires, self.invs, self.ensures, self.covers, self.combs, self.lemmas = [], [], [], [], [], []
         self.cands = []
+        self.comb_at = {}
         self.inv_covers = []
         self.assumptions = []
         self.functions = []    # real functions / classes under contract (for the evidence)
@@ -147,8 +148,11 @@ class Ctx:
         else:
             self.inv_covers.append((name, B(expr)))
 
-    def comb(self, name, impl, spec, method="z3", clause=""):
+    def comb(self, name, impl, spec, method="z3", clause="", at=None):
+        """Combinational equivalence impl == spec for all values of the free constants.  `at`: input values that were
+        substituted into `impl` (control inputs fixed to constants), replayed together with the counterexample."""
         self.combs.append((name, impl, spec, method, clause))
+        self.comb_at[name] = dict(at or {})
 
     def lemma(self, name, formula, clause=""):
         self.lemmas.append((name, B(formula), clause))
